@@ -1,8 +1,11 @@
 import RoaringModel.Ser
+import RoaringModel.Inv
 /-!
 # Well-formedness as `Prop`s (local to the codec family; mirrors `storeWF` / `bitmapWF` of Driver/Core.lean)
 
-Kept in one file so that it can be unified with the shared `Bitmap.WF` library.
+`StoreWF` / `BitmapWF` are the flat forms used inside the codec lemmas; they are proved equivalent to the shared
+`Store.WF` / `Bitmap.WF` of `Inv.lean` (`storeWF_iff`, `bitmapWF_iff`), and every property theorem of the family
+is stated with `Bitmap.WF`.
 -/
 namespace Roaring
 
@@ -19,6 +22,28 @@ theorem BitmapWF.tail {c : Container} {cs : Bitmap} (h : BitmapWF (c :: cs)) : B
 
 theorem BitmapWF.head {c : Container} {cs : Bitmap} (h : BitmapWF (c :: cs)) : c.key < 65536 ∧ StoreWF c.store :=
   h.2 c (List.mem_cons_self)
+
+/-! ### bridge to the shared invariants of `Inv.lean`: the local predicates *are* `Store.WF` / `Bitmap.WF` -/
+
+theorem storeWF_iff (s : Store) : StoreWF s ↔ s.WF := by
+  cases s with
+  | array v =>
+    simp only [StoreWF, Store.WF, Arr.Inv, Sorted]
+    constructor
+    · rintro ⟨h1, h2, h3, h4⟩; exact ⟨⟨h1, h2⟩, h3, h4⟩
+    · rintro ⟨⟨h1, h2⟩, h3, h4⟩; exact ⟨h1, h2, h3, h4⟩
+  | bitmap b =>
+    have hW : W = 2 ^ 64 := by decide
+    simp only [StoreWF, Store.WF, hW]
+    constructor
+    · rintro ⟨h1, h2, h3, h4⟩; exact ⟨⟨h1, h2, h3⟩, h4⟩
+    · rintro ⟨⟨h1, h2, h3⟩, h4⟩; exact ⟨h1, h2, h3, h4⟩
+
+theorem bitmapWF_iff (b : Bitmap) : BitmapWF b ↔ Bitmap.WF b := by
+  simp only [BitmapWF, Bitmap.WF, Container.WF, storeWF_iff]
+
+theorem Bitmap.WF.toCodec {b : Bitmap} (h : Bitmap.WF b) : BitmapWF b := (bitmapWF_iff b).mpr h
+theorem BitmapWF.toWF {b : Bitmap} (h : BitmapWF b) : Bitmap.WF b := (bitmapWF_iff b).mp h
 
 /-! ### `isStrictlySorted` / `keysStrictlyAscending` as `Pairwise` -/
 
